@@ -413,6 +413,6 @@ func TestVerifC35Hls(t *testing.T) {
 		code, panicked := vC35ValidCode(name)
 		out.Case(cqApp("CValid", vC35Q(name), cqZ(int64(code)), cqBool(panicked)),
 			map[string]any{"func": "conf.IsValidPathName", "name": name, "err_code": code, "panic": panicked},
-			fmt.Sprintf("valid-name/%d", code), code == 0 || code == 5)
+			fmt.Sprintf("valid-name/%d/panic=%v", code, panicked), code == 0 || code == 5)
 	}
 }
